@@ -81,6 +81,17 @@ theorem headKwText_norm (d : String) (l : List Tok) : headKwText d (l.map kwNorm
   | nil => rfl
   | cons t r => simp [headKwText, kwText_kwNormTok]
 
+/-- the printed charset / collation token holds the same `String` -/
+theorem litValue_namesPart (sp : Bool) (t : Tok) : litValue (namesPartPiece sp t).tok = litValue t := by
+  unfold namesPartPiece
+  split <;> rfl
+
+theorem optLitSexp_collateNorm (co : List Tok) : optLitSexp (collateNorm co) = optLitSexp co := by
+  unfold collateNorm optLitSexp
+  cases h : co.getLast? with
+  | none => rfl
+  | some t => simp [litValue_namesPart]
+
 /-- **the norm holds the same AST**, for the statement kinds covered by the direct fixpoint -/
 theorem stmt_sexp_norm_fix (s : Stmt) (hk : s.fixKind = true) : s.norm.sexp = s.sexp := by
   obtain ⟨-, -, -, hN, hA, hT, hTT⟩ := closedFacts
@@ -99,7 +110,7 @@ theorem stmt_sexp_norm_fix (s : Stmt) (hk : s.fixKind = true) : s.norm.sexp = s.
   | setVar _ _ _ _ _ _ _ _ => simp [Stmt.fixKind] at hk
   | setTimeZone _ _ _ _ _ => simp [Stmt.fixKind] at hk
   | setNamesDefault _ _ _ _ _ => rfl
-  | setNames _ _ _ _ _ _ => simp [Stmt.fixKind] at hk
+  | setNames kw md colon name cs co => simp [Stmt.norm, Stmt.sexp, litValue_namesPart, optLitSexp_collateNorm]
   | setTx kw md colon head session ms =>
     cases session <;> simp [Stmt.norm, Stmt.sexp, modesSexp_norm]
   | useObj kw kind name => simp [Stmt.norm, Stmt.sexp, headKwText_norm]
